@@ -36,8 +36,8 @@ ASSUMPTIONS = [
     '"reaches the final strength at half the schedule" is read with real division: effective strength == final for every integer epoch with '
     '2*epoch >= n_epochs (for odd n_epochs the first such epoch is (n_epochs+1)/2; at epoch n_epochs//2 the strength is still below final - '
     'counted as outcome info:odd-n_epochs/... and written to the samples); the integer-division reading contradicts the 1% clause at n_epochs=1',
-    'the final strength is the one the regularizer applies when epoch / n_epochs are left unspecified (README); given strengths are positive float32 '
-    'tensors (the documented type); derived strengths are expected to be task_loss/(cost-target) of the first call for metrics above target then '
+    'the final strength is the one the regularizer applies when epoch / n_epochs are left unspecified (README); given strengths are positive '
+    'tensors (the documented type) - float32 for the value grid, plus integer-valued strengths as int64 / int32 / float64 tensors; derived strengths are expected to be task_loss/(cost-target) of the first call for metrics above target then '
     '(docstring / README Eq. 13); a metric whose derived strength is 0 (below target at the first call) does not meet the precondition '
     '"positive final strengths": only finite / non-negative / zero-when-all-hold is asserted for it',
     'between 1% and 100% the ramp is linear in the epoch (README: "linearly increased at each epoch")',
@@ -292,6 +292,9 @@ def cases(tier, seed):
         for tl in t['task_loss']:
             modes.append({'kind': 'derived', 'first': 'self', 'task_loss': tl})
             modes.append({'kind': 'derived', 'first': 'allabove', 'task_loss': tl})
+        if n <= 2:      # strengths are tensors of ANY dtype: integer-valued strengths given as integer / double tensors
+            for ft in ('int64', 'int32', 'float64'):
+                modes.append({'kind': 'given', 'f': [2, 1][:n], 'ftype': ft})
         for i, mode in enumerate(modes):
             tts = ('tensor', 'float')
             if n == 3 and t['tt3'] == 'alternate':
@@ -318,7 +321,7 @@ def cases(tier, seed):
 
 def _mode_key(mode):
     if mode['kind'] == 'given':
-        return 'G' + ','.join('%g' % f for f in mode['f'])
+        return 'G' + ','.join('%g' % f for f in mode['f']) + ('/' + mode['ftype'] if mode.get('ftype') else '')
     return 'D%s%g' % (mode['first'], mode['task_loss'])
 
 
@@ -449,8 +452,8 @@ def _run_base(case, seed):
         try:
             DUCCIO({'a': 64.0}, final_strengths=(2.0,))(_Stub({'a': 96.0}), 1, 10)
             ctx.outcomes.add('info:python-float-final_strengths:accepted')
-        except TypeError:
-            ctx.outcomes.add('info:python-float-final_strengths:TypeError')
+        except (TypeError, AttributeError):
+            ctx.outcomes.add('info:python-float-final_strengths:rejected')
     return ctx.result(sample)
 
 
@@ -462,7 +465,8 @@ def _mk_reg(names, T, mode, tt):
     from plinio.regularizers import DUCCIO
     targets = {k: (torch.tensor(T[k], dtype=torch.float32) if tt == 'tensor' else float(T[k])) for k in names}
     if mode['kind'] == 'given':
-        fs = tuple(torch.tensor(f, dtype=torch.float32) for f in mode['f'])
+        dt = {'int64': torch.int64, 'int32': torch.int32, 'float64': torch.float64}.get(mode.get('ftype'), torch.float32)
+        fs = tuple(torch.tensor(f, dtype=dt) for f in mode['f'])
         return DUCCIO(targets, final_strengths=fs), {k: float(f) for k, f in zip(names, fs)}, None
     tl = torch.tensor(mode['task_loss'], dtype=torch.float32)
     return DUCCIO(targets, task_loss=tl), None, float(tl)
@@ -523,12 +527,22 @@ def _run_config(ctx, subj, names, A, akey, mode, mkey, derived, tt, ne, epochs):
     else:
         first_costs = dict(base_costs)
         first_model = base
+    g_first = None
     if subj.real and first_model is base:
-        v_first = float(reg(base, e0, ne).detach())          # exactly the documented call on the DNAS model
+        raw_first = reg(base, e0, ne)                          # exactly the documented call on the DNAS model
+        v_first = float(raw_first.detach())
+        first_diff = bool(raw_first.requires_grad)
     else:
-        v_first, seen, _, _ = _call(reg, first_model, (e0, ne), False)
+        v_first, seen, g_first, raw_first = _call(reg, first_model, (e0, ne), True)
         first_costs = {k: seen[k] for k in names}
+        first_diff = bool(raw_first.requires_grad)
     ctx.evals += 1
+    # the FIRST call is an ordinary training step too (with task_loss it is the one that derives the strengths): its penalty must be
+    # differentiable w.r.t. every cost in excess - a value computed under no_grad would silently contribute no gradient
+    if math.isfinite(v_first) and v_first > 0.0 and not first_diff:
+        ctx.violation('gradient', 'gradient/first-call-penalty-not-differentiable',
+                      f'{tag0}: the first call (epoch {e0}, costs {first_costs}) returns {v_first!r} > 0 but the value is detached from the costs '
+                      f'(requires_grad=False)', o(e0, first=True))
     d17_struct = derived and any(first_costs[k] == T[k] for k in names)
     dead = False                                              # strengths non-finite: nothing can be compared any more
 
@@ -578,6 +592,15 @@ def _run_config(ctx, subj, names, A, akey, mode, mkey, derived, tt, ne, epochs):
             if derived and not positive[k]:
                 ctx.outcomes.add('info:derived-strength-0/metric-not-above-target-at-first-call (outside "positive final strengths": a later '
                                  'excess of this metric is not penalised)')
+    if g_first is not None and not dead:
+        r0 = ramp_ref(e0, ne)
+        for k in names:
+            if first_costs[k] > T[k] and k in f and positive.get(k):
+                want = f[k] * r0
+                if not close(g_first.get(k, 0.0), want):
+                    ctx.violation('gradient', 'gradient/first-call-wrong-through-metric-in-excess',
+                                  f'{tag0}: first call at epoch {e0} (costs {first_costs}): d value / d cost[{k}] = {g_first.get(k)!r}, reference '
+                                  f'final x ramp = {want!r}', o(e0, first=True, metric=k))
     sample = {'model': subj.kind, 'assignment': dict(zip(names, A)), 'targets': T, 'costs': base_costs, 'strengths': mkey, 'n_epochs': ne,
               'final_strengths': dict(f), 'value_by_epoch': [], 'effective/final strength of metric a by epoch': []}
 
